@@ -7,8 +7,31 @@ From Coq Require Import String.
 Lemma gen_env_ok : forall rn, env_ok (gen_env rn) = true.
 Proof. intros rn. vm_compute. reflexivity. Qed.
 
+(** the XFromProto(nil) table depends on the regexp oracle's answer for the empty pattern: both
+    answers (it parses and prints as some s' / it does not parse) are covered *)
 Lemma gen_from_safe : forall rn, from_safe (gen_env rn) = true.
-Proof. intros rn. vm_compute. reflexivity. Qed.
+Proof. intros rn. unfold gen_env. destruct (rn []) as [s0|]; vm_compute; reflexivity. Qed.
+
+(** [gen_nilfrom] is a fixpoint: for every generated struct type whose FromProto is getter-only, the
+    model's XFromProto(nil) is the model's XFromProto of the message with every field unset *)
+Lemma gen_nil_is_unset_all : forall rn,
+  Forall (fun nt => t_from_nilsafe (snd nt) = true ->
+            apply (gen_env rn) (CRec false false (fst nt)) VNil
+            = apply (gen_env rn) (CRec false false (fst nt)) (zero_rec (t_to (snd nt)))) pf_tables.
+Proof.
+  intros rn. unfold gen_env. remember (rn []) as r0 eqn:Hr0. unfold pf_tables.
+  repeat (apply Forall_cons; [intros _; vm_compute; try rewrite <- Hr0; reflexivity|]).
+  apply Forall_nil.
+Qed.
+
+Theorem gen_nil_is_unset : forall rn n t,
+  lookup n pf_tables = Some t -> t_from_nilsafe t = true ->
+  apply (gen_env rn) (CRec false false n) VNil
+  = apply (gen_env rn) (CRec false false n) (zero_rec (t_to t)).
+Proof.
+  intros rn n t Hl Hs. pose proof (gen_nil_is_unset_all rn) as H. rewrite Forall_forall in H.
+  apply (H (n, t)); [apply lookup_In; exact Hl|exact Hs].
+Qed.
 
 Lemma gen_qkinds_covered : qkinds_covered = true.
 Proof. vm_compute. reflexivity. Qed.
@@ -48,7 +71,7 @@ Qed.
     (QFromProto reads p.Query directly and panics in its default case; nil options are passed on)
     a request without query, and a request without options, crash the handler. *)
 Definition pre_repair_env (rn : list N -> option (list N)) : env :=
-  Env pf_tables pf_qto pf_qfrom pf_qto_default_panics false true c24_exclusions rn.
+  Env pf_tables pf_qto pf_qfrom pf_qto_default_panics false true c24_exclusions rn (gen_nilfrom nil_depth (rn [])).
 
 Lemma pre_repair_unset_query_panics :
   handle (pre_repair_env (fun s => Some s)) ok_streamer ok_streamer false 0 (VR [("Query"%string, VNil); ("Opts"%string, VNil)])
